@@ -241,6 +241,61 @@ def sp_round3(eng, st, x):
     return V.vreal(eng.ctx.fm.round_ndigits(eng._num(eng.as_sym(x)), 3))
 
 
+def sp_append(eng, st, seq, x):
+    seq = eng.as_sym(seq)
+    if seq.shape.elem is None:
+        seq = V.vseq_empty(eng.as_sym(x).shape)
+    return V.seq_append(seq, eng.as_sym(x))
+
+
+def sp_empty_ints(eng, st):
+    return V.vseq_empty(INT)
+
+
+def sp_slice(eng, st, seq, lo, hi):
+    return V.seq_slice(eng.as_sym(seq), eng._int(eng.as_sym(lo)), eng._int(eng.as_sym(hi)))
+
+
+_opaque_fns = {}
+
+
+def view_leaves(v: Val):
+    """Leaves of a value where a sequence is (base arrays, offset, length): a slice xs[a:b] and
+    the triple (xs, a, b - a) flatten identically."""
+    if isinstance(v.shape, SeqS):
+        if v.view is not None:
+            base, lo = v.view
+            bl = view_leaves(base)
+            return bl[:-2] + [z3.simplify(bl[-2] + lo), v.d[1]]
+        return list(v.d[0]) + [z3.IntVal(0), v.d[1]]
+    from pyvc.values import OptS, TupS, RecS, EnumS, UnionS
+    s = v.shape
+    if isinstance(s, OptS):
+        return [v.d[0]] + view_leaves(v.d[1])
+    if isinstance(s, TupS):
+        return [l for i in v.d for l in view_leaves(i)]
+    if isinstance(s, RecS):
+        return [l for k in s.fields for l in view_leaves(v.d[k])]
+    if isinstance(s, EnumS):
+        return view_leaves(v.d)
+    if isinstance(s, UnionS):
+        return [v.d[0]] + [l for a in v.d[1] for l in view_leaves(a)]
+    return V.leaves(v)
+
+
+def sp_opaque(eng, st, name, *vals):
+    """An uninterpreted predicate over the given values: the name of a callee's whole
+    postcondition (introduced where the postcondition is assumed, unfolded only by reveal)."""
+    nm = name.d.as_string()
+    ls = [l for v in vals for l in view_leaves(eng.as_sym(v))]
+    key = (nm, tuple(str(l.sort()) for l in ls))
+    f = _opaque_fns.get(key)
+    if f is None:
+        f = z3.Function(f"{nm}_{len(_opaque_fns)}", *[l.sort() for l in ls], z3.BoolSort())
+        _opaque_fns[key] = f
+    return V.vbool(f(*ls))
+
+
 def sp_alt(eng, st, u, i):
     """The i-th alternative of a union value (meaningful when its tag is i)."""
     u = eng.as_sym(u)
@@ -253,6 +308,10 @@ def sp_tag(eng, st, u):
 
 def register(reg):
     f = reg.spec_funcs
+    f["append"] = sp_append
+    f["empty_ints"] = sp_empty_ints
+    f["slice"] = sp_slice
+    f["opaque"] = sp_opaque
     f["alt"] = sp_alt
     f["tag"] = sp_tag
     f["rxm"] = sp_rxm
